@@ -290,6 +290,11 @@ func c16Run(seed uint64, idx, n int, enabled []string, ops []c16Op, cnt *Counter
 				who = "macc"
 			}
 			switch {
+			case !princ && cls == ClassOk && op.Kind == "swap" && len(op.Coins) > 1:
+				codes[b] = 0
+				setFail(i, "swap-of-several-coins-refused", "multi-coin-swap-accepted:bep3.CreateAtomicSwap",
+					fmt.Sprintf("bep3.CreateAtomicSwap with amount %s accepted from actor %d (%s): only the first coin is checked against its deputy (deputies per asset %v), a claim mints every coin",
+						swapCoins(op), b, w.names[b], v.b3dep))
 			case !princ && cls == ClassOk:
 				codes[b] = 0
 				setFail(i, "wrong-signer-refused", "wrong-signer-accepted:"+c16Handler[op.Kind],
@@ -335,6 +340,12 @@ func c16Run(seed uint64, idx, n int, enabled []string, ops []c16Op, cnt *Counter
 		if pcode == 0 && refusedByGuard > 0 {
 			key := sha1.Sum([]byte(fmt.Sprintf("%s|%v", MustJSON(op), codes)))
 			out.probeKey = append(out.probeKey, hex.EncodeToString(key[:8]))
+		}
+		if op.Kind == "swap" && len(op.Coins) > 1 {
+			inc("split:swap:several-coins")
+			if v.b3dep[op.Coins[0].D] != v.b3dep[op.Coins[1].D] && op.P == v.b3dep[op.Coins[0].D] {
+				inc("split:swap:several-coins-from-first-deputy-other-deputy-second")
+			}
 		}
 		if op.Kind == "swap" && pcode == 0 {
 			if v.b3dep[op.A] == op.P {
@@ -432,7 +443,8 @@ var c16GateSplits = func() []string {
 	}
 	return append(out, "swap:incoming", "swap:outgoing", "vote:member-committee", "vote:token-committee", "repay:closes-cdp",
 		"hardwd:capped-to-record", "savwd:capped-to-record", "block:principal-panic", "postprice:another-principal-accepted",
-		"issue:rate-limited-asset", "earnwd:dust-removed")
+		"issue:rate-limited-asset", "earnwd:dust-removed", "swap:several-coins",
+		"swap:several-coins-from-first-deputy-other-deputy-second")
 }()
 
 func runC16(o Opts) (*Result, error) {
